@@ -58,6 +58,7 @@ RESCOV = ['ref-absolute-path', 'ref-merged', 'ref-empty-path']
 def resolve_runs(P, tier):
     P = ['P_' + p for p in P]
     rs = [R('resolve-paths', 'h_resolve.c', P + ['KB=2', 'KR=2', 'SEGL=2'] + RES_PATH, 'base "x:" [//host] + <=2 segments, reference = path of <=2 segments (optional leading /), segments <=2 chars over [a-z.]; strict and compat mode', RESCOV + ['slash-dot-guard-expected'], 400),
+          R('resolve-paths-k4', 'h_resolve.c', P + ['KB=1', 'KR=4', 'SEGL=1'] + RES_PATH, 'base <=1 segment, reference of <=4 one-character segments (reaches .///x)', RESCOV, 600),
           R('resolve-paths-k3', 'h_resolve.c', P + ['KB=1', 'KR=3', 'SEGL=1'] + RES_PATH, 'base <=1 segment, reference of <=3 one-character segments (reaches /.//x and x/..//y)', RESCOV + ['slash-dot-guard-expected'], 300),
           R('resolve-base-authority', 'h_resolve.c', P + RES_CB, 'base with every authority shape (user info none/empty/1 char, host reg-name/IPv4/IPv6/IPvFuture, port none/empty/1 digit), reference [scheme] path<=1 seg [?query]', RESCOV + ['ref-has-scheme'], 400),
           R('resolve-mixed', 'h_resolve.c', P + RES_CM, 'base scheme [//host] path<=1 [?q]; reference [scheme] [//host] path<=1 [?q] [#f]; 1-char segments', RESCOV + ['ref-has-scheme', 'ref-has-authority'], 600),
@@ -94,7 +95,8 @@ SPECS['C08'] = {'runs': {'quick': norm_runs(['C08'], 'quick'), 'thorough': norm_
     'assumptions': COMMON_ASSUME + ['oracle N: RFC 3986 6.2.2 normal form on strings (oracle/oracle_norm.h); where plain dot removal would need a guard prefix (classes ON_CLS_*) C08 pins no text and C07/C09 apply'],
     'bounds': {'quick': 'see runs: <=3 segments of <=2 chars; one percent triplet; masks {0, single bits, all, required}', 'thorough': 'plus all 64 masks on small shapes, triplets in every component'}, 'outside': 'longer inputs; several triplets at once'}
 NORM_REL4 = ['KN=4', 'SEGL=2', 'NFLAGS=0', 'MASKS=8']
-SPECS['C09'] = {'runs': {'quick': [R('normres-rel4', 'h_normres.c', ['KB=1', 'KR=4', 'SEGL=2', 'BFLAGS=(G_SCHEME_REQ|G_AUTH_REQ)', 'RFLAGS=0'], 'base x://h[/s], reference = relative or absolute path of <=4 segments of <=2 chars over [a-z.]', ['ref-relative-path', 'ref-absolute-path'], 900), R('norm-rel4', 'h_norm.c', ['P_C09'] + NORM_REL4, 'path-only references of <=4 segments of <=2 chars over [a-z.], PATH mask', ['relative-path-ref'], 900), R('normres', 'h_normres.c', ['KB=2', 'KR=2', 'SEGL=2', 'GEN_PATH_COLON'], 'base "x:" [//host] <=2 segments; reference [scheme] [//host] <=2 segments, <=2 chars over [a-z.:]', ['ref-absolute', 'ref-network-path', 'ref-absolute-path', 'ref-relative-path'], 600)] + norm_runs(['C09'], 'quick', full=False),
+SPECS['C09'] = {'runs': {'quick': [R('normres-deep-base', 'h_normres.c', ['BASE_FIXED="x://h/a/b/c/d"', 'KB=4', 'KR=4', 'SEGL=2', 'RFLAGS=0'], 'constant base x://h/a/b/c/d (four levels), reference = relative or absolute path of <=4 segments of <=2 chars over [a-z.] (reaches ../../../g)', ['ref-relative-path', 'ref-absolute-path'], 600),
+                                   R('normres-rel4', 'h_normres.c', ['KB=1', 'KR=4', 'SEGL=2', 'BFLAGS=(G_SCHEME_REQ|G_AUTH_REQ)', 'RFLAGS=0'], 'base x://h[/s], reference = relative or absolute path of <=4 segments of <=2 chars over [a-z.]', ['ref-relative-path', 'ref-absolute-path'], 900), R('norm-rel4', 'h_norm.c', ['P_C09'] + NORM_REL4, 'path-only references of <=4 segments of <=2 chars over [a-z.], PATH mask', ['relative-path-ref'], 900), R('normres', 'h_normres.c', ['KB=2', 'KR=2', 'SEGL=2', 'GEN_PATH_COLON'], 'base "x:" [//host] <=2 segments; reference [scheme] [//host] <=2 segments, <=2 chars over [a-z.:]', ['ref-absolute', 'ref-network-path', 'ref-absolute-path', 'ref-relative-path'], 600)] + norm_runs(['C09'], 'quick', full=False),
                          'thorough': [R('normres', 'h_normres.c', ['KB=2', 'KR=3', 'SEGL=2', 'GEN_PATH_COLON'], 'as quick with references of <=3 segments', ['ref-relative-path'], 2400)] + norm_runs(['C09'], 'thorough', full=False)},
     'assumptions': COMMON_ASSUME + ['references contain no percent-encoding (so no percent-encoded dot segment), as the property states'],
     'bounds': {'quick': 'base<=2, reference<=2 segments of <=2 chars', 'thorough': 'reference<=3 segments'}, 'outside': 'longer paths'}
@@ -105,15 +107,17 @@ def shorten_runs(P, tier):
           R('shorten-authority', 'h_shorten.c', P + ['KS=1', 'KB=1', 'SEGL=1', 'SFLAGS=(G_SCHEME_REQ|G_AUTH_REQ|G_USERINFO|G_PORT)', 'BFLAGS=(G_SCHEME_REQ|G_AUTH_REQ|G_USERINFO|G_PORT)'], 'S and B with user info none/empty/1 char and port none/empty/1 digit, <=1 segment', ['same-authority-relative'], 600),
           R('shorten-colon', 'h_shorten.c', P + ['KS=2', 'KB=2', 'SEGL=2', 'GEN_PATH_COLON', 'SFLAGS=(G_SCHEME_REQ|G_AUTH_REQ)', 'BFLAGS=(G_SCHEME_REQ|G_AUTH_REQ)'], 'S and B: scheme //host <=2 segments of <=2 chars over [a-z.:]; both modes', ['same-authority-relative'], 600),
           R('shorten-hostkinds', 'h_shorten.c', P + (['KS=1', 'KB=1'] if tier == 'thorough' else ['KS=0', 'KB=0']) + ['SEGL=1', 'SFLAGS=(G_SCHEME_REQ|G_AUTH_REQ|G_HOSTKINDS)', 'BFLAGS=(G_SCHEME_REQ|G_AUTH_REQ|G_HOSTKINDS)'], 'S and B with every host kind (reg-name, IPv4, IPv6, IPvFuture; symbolic digits), no path (thorough: <=1 segment)', ['same-authority-relative', 'schemes-differ'], 2400 if tier == 'thorough' else 600),
+          R('shorten-query', 'h_shorten.c', P + ['KS=1', 'KB=1', 'SEGL=1', 'SFLAGS=(G_SCHEME_REQ|G_AUTH|G_QUERY|G_FRAG)', 'BFLAGS=(G_SCHEME_REQ|G_AUTH|G_QUERY)'], 'S: scheme [//host] <=1 segment [?q] [#f], B: scheme [//host] <=1 segment [?q] (equal and different queries, empty paths); both modes', ['same-authority-relative', 'schemes-differ'], 600),
           R('shorten-nonabsolute', 'h_shorten.c', P + ['KS=1', 'KB=1', 'SEGL=1', 'SFLAGS=(G_SCHEME_OPT|G_AUTH)', 'BFLAGS=(G_SCHEME_OPT|G_AUTH)'], 'S or B without scheme (error codes)', ['non-absolute-rejected'], 300)]
     if tier == 'thorough':
-        rs.append(R('shorten-paths-3', 'h_shorten.c', P + ['KS=3', 'KB=3', 'SEGL=1', 'GEN_PATH_COLON', 'SFLAGS=(G_SCHEME_REQ|G_AUTH|G_QUERY)', 'BFLAGS=(G_SCHEME_REQ|G_AUTH|G_QUERY)'], '<=3 segments over [a-z.:], optional queries', ['same-authority-relative'], 2400))
+        rs.append(R('shorten-paths-3', 'h_shorten.c', P + ['KS=3', 'KB=3', 'SEGL=1', 'GEN_PATH_COLON', 'SFLAGS=(G_SCHEME_REQ|G_AUTH|G_QUERY)', 'BFLAGS=(G_SCHEME_REQ|G_AUTH|G_QUERY)'], '<=3 segments over [a-z.:], optional queries', ['same-authority-relative'], 7200))
     return rs
 SPECS['C10'] = {'runs': {'quick': shorten_runs(['C10'], 'quick'), 'thorough': shorten_runs(['C10'], 'thorough')},
     'assumptions': COMMON_ASSUME + ['inverse check uses the real resolver (uriAddBaseUriExMm, decided by C06) and oracle R for dot-segment normalisation'],
     'bounds': {'quick': '<=2 segments of 1 char each side', 'thorough': '<=3 segments, queries'}, 'outside': 'longer paths'}
 SPECS['C11'] = {'runs': {'quick': [R('equals', 'h_equals.c', ['KE=1', 'SEGL=1', 'EFLAGS=(G_SCHEME_OPT|G_AUTH|G_QUERY|G_FRAG)'], 'two texts: [scheme] [//host] path<=1 segment [?q] [#f], 1-char pieces', ['equal', 'different'], 600),
                                    R('equals-hosts-q', 'h_equals.c', ['KE=0', 'SEGL=1', 'EFLAGS=(G_AUTH_REQ|G_HOSTKINDS)'], 'two authorities with every host kind (reg-name, IPv4, IPv6, IPvFuture; symbolic digits)', ['equal', 'different'], 600),
+                                   R('equals-paths', 'h_equals.c', ['KE=2', 'SEGL=1', 'EFLAGS=(G_SCHEME_OPT|G_AUTH)'], 'two texts [scheme] [//host] path of <=2 one-character segments (segment lists of different lengths, prefixes of each other)', ['equal', 'different'], 600),
                                    R('equals-produced', 'h_normres.c', ['KB=1', 'KR=2', 'SEGL=2'], 'pairs of URIs produced by resolve/normalise from the same reference: equal exactly when the recomposed texts are identical', ['ref-relative-path'], 600, kf_of='C09')],
                          'thorough': [R('equals', 'h_equals.c', ['KE=1', 'SEGL=1', 'EFLAGS=(G_SCHEME_OPT|G_AUTH|G_QUERY|G_FRAG)'], 'as quick', ['equal', 'different'], 900),
                                       R('equals-paths', 'h_equals.c', ['KE=3', 'SEGL=1', 'EFLAGS=(G_SCHEME_OPT|G_AUTH)'], 'two texts with <=3 segments', ['equal', 'different'], 2400),
@@ -132,6 +136,7 @@ SPECS['C07'] = {'runs': {
     'quick': [R('parse', 'h_parse.c', ['P_C07', 'NMAX=5'], 'parsed URIs, all texts of length 0..5', ['accepted'], 400),
               R('parseIP', 'h_parse.c', ['P_C07', 'PREFIX="//["', 'NMAX=5'], 'parsed URIs with IP literals, "//[" + 0..5 chars', ['host-ip6'], 400),
               R('resolve', 'h_resolve.c', ['P_C07', 'KB=2', 'KR=2', 'SEGL=2'] + RES_PATH, 'resolved URIs (paths config of C06)', RESCOV, 400),
+              R('resolve-k4', 'h_resolve.c', ['P_C07', 'KB=1', 'KR=4', 'SEGL=1'] + RES_PATH, 'resolved URIs, references of <=4 one-character segments (reaches .///x)', RESCOV, 600),
               R('resolve-k3', 'h_resolve.c', ['P_C07', 'KB=1', 'KR=3', 'SEGL=1'] + RES_PATH, 'resolved URIs, references of <=3 one-character segments', RESCOV, 300),
               R('resolve-mixed', 'h_resolve.c', ['P_C07'] + RES_CM, 'resolved URIs (mixed config of C06)', ['ref-has-scheme'], 600),
               R('shorten-colon', 'h_shorten.c', ['P_C07', 'KS=2', 'KB=2', 'SEGL=2', 'GEN_PATH_COLON', 'SFLAGS=(G_SCHEME_REQ|G_AUTH_REQ)', 'BFLAGS=(G_SCHEME_REQ|G_AUTH_REQ)'], 'created references, <=2 segments of <=2 chars over [a-z.:]', ['same-authority-relative'], 600),
@@ -205,6 +210,11 @@ SPECS['C14'] = {'runs': {
     'bounds': {'quick': 'see runs', 'thorough': 'see runs'}, 'outside': 'uriComposeQueryMalloc (single allocation; its failure is covered by the repository test) and longer inputs'}
 
 # ---------------------------------------------------------------- C15 .. C20
+# thorough tiers also contain the targeted quick runs that have no deeper counterpart
+for _p, _names in (('C09', ('normres-deep-base', 'normres-rel4', 'norm-rel4')), ('C07', ('resolve-k4',)), ('C11', ())):
+    _have = set(r['name'] for r in SPECS[_p]['runs']['thorough'])
+    for _r in SPECS[_p]['runs']['quick']:
+        if _r['name'] in _names and _r['name'] not in _have: SPECS[_p]['runs']['thorough'].append(dict(_r))
 # C13 also on the cleanup paths: the failure-injection runs of C14, decided for allocator attribution (the C14 assertions are foreign there)
 for _t in ('quick', 'thorough'):
     for _r in SPECS['C14']['runs']['quick']:
@@ -222,7 +232,7 @@ SPECS['C15'] = {'runs': {
 SPECS['C16'] = {'runs': {
     'quick': [R('escape', 'h_escape.c', ['MODE_ESC', 'NMAX=3'], 'all char strings over 1..255 of length 0..3; both flags; explicit range and NUL-terminated; round trip through uriUnescapeInPlaceEx', ['normalize-breaks', 'space-to-plus', 'nul-terminated', 'explicit-range'], 600),
               R('unescape', 'h_escape.c', ['NMAX=4'], 'all NUL-terminated char strings of length 0..4 (incl. truncated/malformed %); plus-to-space; all four break modes', ['decoded-something', 'nothing-decoded'], 600),
-              R('unescape-tokens', 'h_escape.c', ['TOKENS', 'NMAX=3'], 'sequences of 0..3 tokens, each a symbolic character or a %XY triplet with symbolic hex digits (up to 9 characters)', ['decoded-something'], 600),
+              R('unescape-tokens', 'h_escape.c', ['TOKENS', 'NMAX=3'], 'sequences of 0..3 tokens, each a symbolic character, a %XY triplet or a truncated pair %X with symbolic hex digits (up to 9 characters)', ['decoded-something'], 600),
               R('unescapeW', 'h_escape.c', ['WIDE', 'NMAX=3'], 'all wchar_t strings (32-bit values) of length 0..3', ['decoded-something'], 600)],
     'thorough': [R('escape', 'h_escape.c', ['MODE_ESC', 'NMAX=4'], 'length 0..4', ['normalize-breaks'], 2400), R('escapeW', 'h_escape.c', ['MODE_ESC', 'WIDE', 'NMAX=3'], 'wide, length 0..3', ['normalize-breaks'], 2400),
               R('unescape', 'h_escape.c', ['NMAX=6'], 'length 0..6', ['decoded-something'], 2400), R('unescape-tokens', 'h_escape.c', ['TOKENS', 'NMAX=4'], 'sequences of 0..4 tokens', ['decoded-something'], 2400), R('unescapeW', 'h_escape.c', ['WIDE', 'NMAX=4'], 'wide, length 0..4', ['decoded-something'], 2400)]},
